@@ -25,6 +25,9 @@ def handle (line : String) : String :=
       s!"v={b2s (validate R P)} s={b2s (scopeOk Γ none R)} p={b2s (scopeOk Γ none P)} g={b2s (branchLocal R)} b={btxt}"
     | .error e, _ => s!"parse-error rendered {e}"
     | _, .error e => s!"parse-error plain {e}"
+  | ["skel", r, p] =>
+    -- relational skeleton (value children replaced by `_`): the rendering of a relational tree is that tree, never a value `Let` around it
+    b2s (r == p && !(r.startsWith "(Let "))
   | ["eval", env, t] =>
     match readSexp env >>= toEnv, readIR t with
     | .ok ρ, .ok T => showVal (eval ρ [] T)
